@@ -4,7 +4,7 @@
 usage: confirm_seed.py <seed-dir> [--keep-wt]     (seed-dir has patch.diff + meta.json with demo_cmd)
 The demo command is run with cwd = worktree root and $D = seed dir."""
 import json, os, subprocess, sys, re, shutil
-WT = "/tmp/confirm-wt"
+WT = os.environ.get("CONFIRM_WT", "/tmp/confirm-wt")
 BASE = json.load(open("/root/.vp/BASELINE.json"))
 STABLE = set(BASE["stable_pass"])
 
